@@ -135,11 +135,12 @@ def slot(h, name, u):
         m = getattr(h, name)
     except AttributeError:
         return "absent"
-    owner = m.__self__
+    owner = getattr(m, "__self__", None)
     if owner is u:
         return "direct"
-    assert type(owner).__name__ == "async_generator" and owner.ag_frame is None, owner
-    return "dead"
+    if type(owner).__name__ == "async_generator" and owner.ag_frame is None:
+        return "dead"
+    return "other"
 
 
 def run_real(spec, ops):
@@ -181,7 +182,10 @@ def run_real(spec, ops):
                     outs.append(["handle", len(handles) - 1])
         except AttributeError:
             outs.append("noattr")
-    alive = [[h._wrapper.ag_frame is not None, slot(h, "asend", u), slot(h, "athrow", u)] for h in handles]
+    try:
+        alive = [[h._wrapper.ag_frame is not None, slot(h, "asend", u), slot(h, "athrow", u)] for h in handles]
+    except Exception:  # noqa: BLE001 - the handles' private representation is not what it was when the model was written
+        alive = None
     return outs, list(log), list(body), alive      # (snapshots: a bare generator logs "closed" when it is garbage-collected)
 
 
